@@ -706,3 +706,82 @@ Example C09_new_steps_example :
   all_satisfied (fst (wrun sq_steps_world steps_program minit vs)) (snd (wrun sq_steps_world steps_program minit vs))
     (run_plan plan_ConvexFunction (fstate_of (fun _ => 0%Q) (mrun steps_program minit) 0)).
 Proof. exact new_steps_example. Qed.
+
+(** * Inexact proximal steps
+
+    [MInexactProx f x0 gamma opt] models  x, gx, fx, w, v, fw, eps_var = inexact_proximal_step(x0, f, gamma, opt)  for the
+    three options: the fresh leaves in the order Python allocates them, the one or two samples recorded on f and the
+    accuracy constraint added to f (compared with the real step by the recording stream): *)
+Theorem C09_inexact_proximal_step_records :
+  forall (s : mstate) (f : nat) (x0 : pdict) (gamma : Q),
+  mstep s (MInexactProx f x0 gamma PDgapI) =
+    mkM (4 + m_np s) (3 + m_ne s)
+        (m_samples s ++ [(f, ([(S (m_np s), 1%Q)], [(m_np s, 1%Q)], [(KF (m_ne s), 1%Q)]));
+                         (f, ([(S (S (m_np s)), 1%Q)], [(S (S (S (m_np s))), 1%Q)], [(KF (S (m_ne s)), 1%Q)]))])
+        (m_cons s ++ [(f, ip_cons PDgapI (m_np s) (m_ne s) x0 gamma)]) /\
+  mstep s (MInexactProx f x0 gamma PDgapII) =
+    mkM (2 + m_np s) (2 + m_ne s)
+        (m_samples s ++ [(f, (ip2_point (m_np s) x0 gamma, [(S (m_np s), 1%Q)], [(KF (m_ne s), 1%Q)]))])
+        (m_cons s ++ [(f, ip_cons PDgapII (m_np s) (m_ne s) x0 gamma)]) /\
+  mstep s (MInexactProx f x0 gamma PDgapIII) =
+    mkM (3 + m_np s) (3 + m_ne s)
+        (m_samples s ++ [(f, ([(m_np s, 1%Q)], [(S (m_np s), 1%Q)], [(KF (S (m_ne s)), 1%Q)]));
+                         (f, ([(S (S (m_np s)), 1%Q)], ip3_grad (m_np s) x0 gamma, [(KF (m_ne s), 1%Q)]))])
+        (m_cons s ++ [(f, ip_cons PDgapIII (m_np s) (m_ne s) x0 gamma)]).
+Proof. exact inexact_prox_records. Qed.
+Print Assumptions C09_inexact_proximal_step_records.
+
+(** In the real run the fresh leaves are valued by the world's approximate proximal operator ([iprox], every world has
+    one: [iprox_spec]; [mwf] asks for a positive step size; for 'PD_gapII' the error leaf e gets x - x0 + gamma gx, so
+    that the recorded point x0 - gamma gx + e evaluates to the approximate proximal point).  The theorems about ALL
+    programs ([C09_recorded_samples_are_genuine], [C09_recorded_step_constraints_hold], ...) cover these steps.  What
+    the recorded accuracy constraint means under any valuation: *)
+Theorem C09_inexact_proximal_constraint_meaning :
+  forall (E : ips) (opt : ipopt) (rho : nat -> E) (phi : nat -> R) (n e : nat) (x0 : pdict) (gamma : Q),
+    DictLemmas.NoDupKeys nat x0 -> 0 < Q2R gamma ->
+    (holds rho phi (ip_cons opt n e x0 gamma) <->
+     match opt with
+     | PDgapI =>
+         nrm2 (vadd (vsub (rho (S (S n))) (evalP rho x0)) (vscal (Q2R gamma) (rho n))) / 2
+         + Q2R gamma * (phi (S e) - phi e - inner (rho n) (vsub (rho (S (S n))) (rho (S n)))) <= phi (S (S e))
+     | PDgapII => nrm2 (rho n) / 2 <= phi (S e)
+     | PDgapIII =>
+         Q2R gamma * (phi (S e) - phi e
+                      - inner (vscal (1 / Q2R gamma) (vsub (evalP rho x0) (rho n))) (vsub (rho n) (rho (S (S n)))))
+         <= phi (S (S e))
+     end).
+Proof. exact (@iprox_constraint_meaning_cases). Qed.
+Print Assumptions C09_inexact_proximal_constraint_meaning.
+
+(** the criterion of the specification is the primal-dual gap of the proximal problem (Spec/StepsSpec.v [pd_gap], the
+    docstring's Phi_p(x) - Phi_d(v)) at the dual point of the option *)
+Theorem C09_inexact_proximal_specification_is_primal_dual_gap :
+  forall (E : ips) (W : @world E) (f : nat) (opt : ipopt) (gamma : R) (x0 : E),
+    0 < gamma ->
+    let r := iprox W f opt gamma x0 in
+    let w := fst (fst (fst (fst r))) in let v := snd (fst (fst (fst r))) in let fw := snd (fst (fst r)) in
+    let x := fst (fst (snd (fst r))) in let gx := snd (fst (snd (fst r))) in let fx := snd (snd (fst r)) in
+    match opt with
+    | PDgapI => StepsSpec.pd_gap gamma x0 x fx v w fw
+    | PDgapII => StepsSpec.pd_gap gamma x0 x fx gx x fx
+    | PDgapIII => StepsSpec.pd_gap gamma x0 x fx (vscal (1 / gamma) (vsub x0 x)) w fw
+    end <= snd r.
+Proof. exact (@iprox_spec_is_pd_gap). Qed.
+Print Assumptions C09_inexact_proximal_specification_is_primal_dual_gap.
+
+(** Non-vacuity: x0 = Point(); inexact_proximal_step(x0, f, 1/2, 'PD_gapI'); inexact_proximal_step(x0, f, 1, 'PD_gapII');
+    inexact_proximal_step(x0, f, 2, 'PD_gapIII')  on f(x) = x^2 with the exact proximal operator (accuracy 0) *)
+Example C09_inexact_proximal_example :
+  forall vs : (nat -> R1) * (nat -> R),
+  mwf inexact_prox_program minit = true /\ steps_ok sq_steps_world inexact_prox_program = true /\
+  Forall op_nodup inexact_prox_program /\ forallb linopt_dir_nonzero inexact_prox_program = true /\
+  m_np (mrun inexact_prox_program minit) = 10%nat /\ m_ne (mrun inexact_prox_program minit) = 8%nat /\
+  List.length (m_samples (mrun inexact_prox_program minit)) = 5%nat /\
+  List.length (m_cons (mrun inexact_prox_program minit)) = 3%nat /\
+  fst (wrun sq_steps_world inexact_prox_program minit vs) 3%nat = (Q2R 1 * fst vs 0%nat + 0) / (1 + 2 * Q2R (1 # 2)) /\
+  snd (wrun sq_steps_world inexact_prox_program minit vs) 2%nat = 0 /\
+  (forall f c, In (f, c) (m_cons (mrun inexact_prox_program minit)) ->
+     holds (fst (wrun sq_steps_world inexact_prox_program minit vs)) (snd (wrun sq_steps_world inexact_prox_program minit vs)) c) /\
+  all_satisfied (fst (wrun sq_steps_world inexact_prox_program minit vs)) (snd (wrun sq_steps_world inexact_prox_program minit vs))
+    (run_plan plan_ConvexFunction (fstate_of (fun _ => 0%Q) (mrun inexact_prox_program minit) 0)).
+Proof. exact inexact_prox_example. Qed.
